@@ -49,7 +49,7 @@ TrVerified == Is("verified") /\ Step(Verify)
 TrFailed ==
   /\ Is("failed")
   /\ Step(CASE Line.phase = "load" -> LoadFault
-            [] Line.phase = "write" -> \E b \in BOOLEAN : WriteFault(b)
+            [] Line.phase = "write" -> (\E b \in BOOLEAN : WriteFault(b)) \/ Refuse
             [] Line.phase = "verify" -> VerifyFault
             [] OTHER -> FALSE)
 \* "deleted" is announced after the removal was attempted; how far it got is seen at the end
